@@ -318,6 +318,27 @@ impl Qcow2Header {
             return Err(format!("qcow2 L1 table size {l1_bytes} is too big").into());
         }
 
+        // both tables have to lie within the addressable part of the file
+        // (host offsets have 56 bits), which also keeps offset arithmetic on
+        // them from overflowing
+        const MAX_HOST_OFFSET: u64 = 1 << 56;
+        let (l1_start, reftable_start) = (header.l1_table_offset, header.refcount_table_offset);
+        if l1_start
+            .checked_add(l1_bytes)
+            .map(|end| end > MAX_HOST_OFFSET)
+            != Some(false)
+            || reftable_start
+                .checked_add(reftable_bytes)
+                .map(|end| end > MAX_HOST_OFFSET)
+                != Some(false)
+        {
+            return Err("qcow2 table offset is out of range".into());
+        }
+
+        if header.size == 0 {
+            return Err("qcow2 image with virtual size 0 is not supported".into());
+        }
+
         // the spec requires both tables to start at a cluster boundary,
         // and the cluster walk in check() relies on it
         let l1_table_offset = header.l1_table_offset;
@@ -726,6 +747,10 @@ impl Qcow2HeaderExtension {
                 Qcow2HeaderExtensionType::FeatureNameTable => {
                     let mut feats = HashMap::new();
                     for feat in data.chunks(48) {
+                        // an entry is type, bit number, name: skip a truncated one
+                        if feat.len() < 2 {
+                            continue;
+                        }
                         let feat_type: Qcow2FeatureType = match feat[0].try_into() {
                             Ok(ft) => ft,
                             Err(_) => continue, // skip unrecognized entries
